@@ -239,7 +239,9 @@ impl Prop for C17 {
         }
         let sign = pick_feed_sign(r, &trees);
         let scale = *r.pick(SCALES) / 4.25;
-        let n_events = r.range(20, 600);
+        // 1% of runs are long (logic that only engages after thousands of updates)
+        let long_run = r.chance(0.01);
+        let n_events = if long_run { r.range(4_500, 12_000) } else { r.range(20, 600) };
         // per-replica feeds (twins share one)
         let mut feeds: Vec<Vec<f64>> = vec![];
         for j in 0..n_rep {
@@ -257,7 +259,7 @@ impl Prop for C17 {
         let mut tree_of: Vec<usize> = (0..n_rep).collect();
         let p_fork = *r.pick(&[0.0, 0.01, 0.03, 0.08]);
         let p_drop = *r.pick(&[0.0, 0.005, 0.02]);
-        let p_mig = *r.pick(&[0.0, 0.0, 0.02, 0.1]);
+        let p_mig = if long_run { 0.0005 } else { *r.pick(&[0.0, 0.0, 0.02, 0.1]) };
         let p_obs = *r.pick(&[0.05, 0.15, 0.4]);
         // silent deliveries: update() without a following last(); the canonical reference reads after every one
         let p_silent = *r.pick(&[0.0, 0.3, 0.7, 0.95]);
